@@ -162,6 +162,11 @@ def process_results(check, obs, known):
                 check.inconclusive.append("%s: solver model %s does not reproduce natively (pre=%r post=%r); "
                                           "encoder or oracle error, see %s" % (ob.name, fmt_model(ob, model), pv, qv, path))
                 continue
+            if st == "lowering-failed":
+                # a compile-time verdict (the compiler's, not the solver's): the kernel line itself is ill-formed
+                path = write_replay(check, ob, [], [], "lowering-failed: " + str(ob.key.get("compile_error", "")))
+                check.violations.append((ob.name, path, {"lowering_stage": ob.key.get("compile_error", "")[:120]}))
+                continue
             if st == "rejected":
                 counters["rejected"] += 1
                 if ob.kind != "stretch":
@@ -368,6 +373,19 @@ def replay_main(a):
         names = set(rec.get("kernel_sources", {}).keys())
         ks = [k for k in kernels if k.name in names] or kernels
         check.lower_all(ks)
+        for k in kernels:
+            if k.name not in check.K:
+                k.dropped = "(not built in replay mode)"
+                check.K[k.name] = F.SymHandle(k, None, {})
+        if rec.get("verdict", "").startswith("lowering-failed"):
+            bad = [k for k in ks if k.dropped]
+            for k in bad:
+                print("  does not compile: %s\n    %s" % (k.line(), k.dropped))
+            if bad:
+                print("VIOLATION property=%s replay=%s" % (rec["property"], a.replay))
+                return 1
+            print("not reproduced on the current tree (kernels compile)")
+            return 0
         obs = [ob for ob in check.obligations(check.K) if ob.name == obs_needed]
         if not obs:
             print("replay: obligation %s not found" % obs_needed)
